@@ -5,9 +5,11 @@ import threading
 
 import common as C
 import configgen as G
-from framework import Check
+import os
 
-OUT = re.compile(r"^RET (-?\d+) valid=(true|false) configured=(\S*) started=(\S*)(?: pre=(\S+)/(true|false))?$")
+from framework import Check, ProbeCrashed
+
+OUT = re.compile(r"^RET (-?\d+) valid=(true|false) configured=(\S*) started=(\S*) listening=(\d+)(@\S+)?(?: pre=(\S+)/(true|false))?$")
 SHARDS = 6
 ENV = {"VERIF_REPO_CONFIG": C.REPO + "/config"}       # where the probe finds the shipped config/*.tmpl of the tree under test
 
@@ -36,12 +38,52 @@ def oracle(impl_line, invalid):
             return False, "invalid configuration accepted (ConfigurationValid = true, subsystems started: %s)" % started
         if started:
             return False, "invalid configuration: subsystems were started: %s" % started
+        if int(m.group(5)) > 0:
+            return False, "invalid configuration refused, but %s listening socket(s) opened by Start are left open (ports %s)" % (
+                m.group(5), (m.group(6) or "@?")[1:])
         return True, "refused"
     if not valid:
         return False, "valid configuration refused"
     if not started:
         return False, "valid configuration: nothing started"
     return True, "accepted"
+
+
+TEST = "TestVerifProbeConfig"
+MAX_CRASHES = 4
+
+
+def run_shard(chk, cases, name, timeout, crashed):
+    """The probe on `cases` in one process.  If the process dies on a case (os.Exit from inside core.Start, a fatal runtime
+    error, a hang killed by the timeout), that single case is run again in a child process of its own: if the child also
+    ends without printing the case's output line, the case gets the pseudo output `EXIT <status> ...` (which the property's
+    oracle reads as "start-up crashed", a concrete failing configuration) and the shard goes on behind it."""
+    out, rest, attempt = [], list(cases), 0
+    while rest:
+        run = "%s_r%d" % (name, attempt)
+        try:
+            out += chk.run_impl("config", TEST, rest, name=run, timeout=timeout, extra_env=ENV)
+            break
+        except ProbeCrashed as e:
+            if e.case is None:
+                raise
+            part = os.path.join(chk.work, run + ".impl")
+            done = open(part).read().splitlines()[:e.done] if os.path.exists(part) else []
+            out += done + [""] * (e.done - len(done))
+            try:
+                alone = chk.run_impl("config", TEST, [e.case], name=run + "_alone", timeout=min(timeout, 300), extra_env=ENV)
+                out.append(alone[0])       # not reproducible on its own: keep what it prints, report the batch crash separately
+                crashed.append((e.case, e.rc, (e.out or "")[-600:], False))
+            except ProbeCrashed as e1:
+                tail = [l for l in (e1.out or "").splitlines() if l.strip()][-1:] or [""]
+                out.append("EXIT %s the process ended inside core.Start without Start returning [%s]" % (e1.rc, tail[0][:160]))
+                crashed.append((e.case, e1.rc, (e1.out or "")[-600:], True))
+            rest = rest[e.done + 1:]
+            attempt += 1
+            if attempt >= MAX_CRASHES and rest:
+                out += ["SKIPPED (the probe process died %d times in this shard)" % attempt] * len(rest)
+                break
+    return out
 
 
 def differential(chk, cases, name, timeout=6000):
@@ -51,12 +93,11 @@ def differential(chk, cases, name, timeout=6000):
     n = min(SHARDS, max(1, len(cases) // 8))
     C.build_probe("config")       # once, before the shards ask for it
     parts = [cases[k::n] for k in range(n)]
-    outs, errs = [None] * n, []
+    outs, errs, crashed = [None] * n, [], []
 
     def work(k):
         try:
-            outs[k] = chk.run_impl("config", "TestVerifProbeConfig", parts[k], name="%s_%d" % (name, k), timeout=timeout,
-                                   extra_env=ENV)
+            outs[k] = run_shard(chk, parts[k], "%s_%d" % (name, k), timeout, crashed)
         except Exception as e:      # re-raised in the main thread (ProbeBroken / ProbeCrashed are handled by the framework)
             errs.append(e)
 
@@ -71,9 +112,17 @@ def differential(chk, cases, name, timeout=6000):
     for k in range(n):
         impl[k::n] = outs[k]
     model = chk.run_model("config", cases, name=name)
-    mism = [(i, c, a, b) for i, (c, a, b) in enumerate(zip(cases, impl, model)) if a != strip(b)]
+    mism = [(i, c, a, b) for i, (c, a, b) in enumerate(zip(cases, impl, model))
+            if a != strip(b) and not a.startswith("SKIPPED")]
     chk.evaluations += len(cases)
     chk.traces_validated += len(cases)
+    for case, rc, out, alone in crashed:
+        chk.count("probe-process-died:" + ("reproduced-alone" if alone else "only-in-batch"))
+        if not alone:
+            chk.violation("impl_crashed_in_batch", {
+                "kind": "input", "probe": "core/TestVerifProbeConfig", "case": case, "exit_status": rc, "output_tail": out,
+                "broken": "the probe process died while running this case in a batch (exit status %s) but not when the case "
+                          "was run on its own" % rc}, found_input=False)
     return impl, model, mism
 
 
@@ -82,6 +131,9 @@ def evaluate(chk, cases, impl, model, mism, tag):
     reported = 0
     for i, (c, a, b) in enumerate(zip(cases, impl, model)):
         base, edits = G.parse_head(c)
+        if a.startswith("SKIPPED"):
+            chk.count("impl:SKIPPED")
+            continue
         nreq, reqs = spec_reqs(b)
         invalid = nreq > 0
         ok, why = oracle(a, invalid)
@@ -169,8 +221,7 @@ def replay(path):
     obj = json.load(open(path))
     chk = Check("C19", "quick", int(obj.get("seed", 1)))
     case = obj["case"]
-    impl, model, mism = chk.differential("config", "config", "TestVerifProbeConfig", [case], name="replay", project=strip,
-                                         extra_env=ENV)
+    impl, model, mism = differential(chk, [case], "replay")
     nreq, reqs = spec_reqs(model[0])
     ok, why = oracle(impl[0], nreq > 0)
     print("case   :", " ".join(case.split()[:3]), " context:", G.parse_ctx(case))
